@@ -68,7 +68,13 @@ func c13Run(t *testing.T, s *sim.Scn) *sim.Outcome {
 	before := raceLogSize()
 	if p := sim.Bubble(t, func() { c13Body(t, s, o) }); p != nil {
 		msg := fmt.Sprint(p)
-		if false {
+		if msg == sim.BubbleAborted {
+			if raceLogSize() > before {
+				o.Fail("C13/data-race", "C13/data-race/"+raceSite(raceLogText()), -1, raceLogText(), "no data race between the background activities")
+			} else {
+				o.Fail("C13/bubble-aborted", "", -1, msg, "the run completes")
+			}
+		} else if false {
 		} else if strings.Contains(msg, "deadlock") {
 			o.Fail("C13/goroutines-left-blocked", "", -1, msg, "no goroutine is left blocked after shutdown")
 		} else {
@@ -85,9 +91,12 @@ func c13Run(t *testing.T, s *sim.Scn) *sim.Outcome {
 func raceSite(rep string) string {
 	for _, l := range strings.Split(rep, "\n") {
 		l = strings.TrimSpace(l)
-		if strings.HasPrefix(l, "github.com/evstack/ev-node/") && strings.Contains(l, "(") {
-			f := l[:strings.Index(l, "(")]
-			return f[strings.LastIndex(f, "/")+1:]
+		if strings.HasPrefix(l, "github.com/evstack/ev-node/") && strings.HasSuffix(l, ")") {
+			f := strings.TrimPrefix(l, "github.com/evstack/ev-node/")
+			if i := strings.LastIndex(f, "("); i > 0 {
+				f = f[:i]
+			}
+			return strings.NewReplacer("(", "", ")", "", "*", "").Replace(f)
 		}
 	}
 	return "unknown"
@@ -225,6 +234,34 @@ func c13Body(t *testing.T, s *sim.Scn, o *sim.Outcome) {
 				}
 			}
 		})
+	}
+	// observers: the public, concurrently callable getters of the manager are what RPC handlers, metrics and
+	// the node's own status reporting call from other goroutines in a deployment
+	observe := func(n *sim.Node) {
+		env(func() {
+			tk := time.NewTicker(53 * time.Millisecond)
+			defer tk.Stop()
+			for {
+				select {
+				case <-envDone:
+					return
+				case <-tk.C:
+					st := n.M.GetLastState()
+					_ = n.M.GetDAIncludedHeight()
+					h, _ := n.M.GetStoreHeight(ctx)
+					if h > 0 {
+						_, _ = n.M.IsDAIncluded(ctx, h)
+					}
+					_ = n.M.IsBlockHashSeen("00")
+					_ = n.M.PendingHeaders()
+					_ = st.LastBlockHeight
+				}
+			}
+		})
+	}
+	observe(agg)
+	if full != nil {
+		observe(full)
 	}
 	type inj struct {
 		at time.Duration
